@@ -348,14 +348,18 @@ func (d *drv) regressions() {
 		d.rest("compressed-read scenarios (" + f.mode + ")")
 	}
 	// F10 and the rest of the header table: every mutation once, read through every read path
+	// (the shards of one run share the table: shard seeds are consecutive, four cover it)
 	for i, m := range mutationTable {
+		if uint64(i)%4 != d.rep.Seed%4 {
+			continue
+		}
 		f := d.fz
-		d.mutateAndRead(f, m, []int{5000, 2<<20 + 11}[i%2])
-		if i%3 == 0 { // files without a header: truncation, garbage, removal also in uncompressed storage
+		d.mutateAndRead(f, m, []int{5000, 2<<20 + 11}[(i/4)%2])
+		if (i/4)%2 == 0 { // files without a header: truncation, garbage, removal also in uncompressed storage
 			d.mutateAndRead(d.fu, m, 5000)
 		}
 	}
-	d.rest("every file mutation once")
+	d.rest("the table of file mutations (this shard's quarter)")
 }
 
 // the SpliceBlob writer/Put/select protocol on the real code: every way Put can end
@@ -508,10 +512,10 @@ func runProbes() []probeResult {
 			var werr error
 			select {
 			case werr = <-done:
-			case <-time.After(25 * time.Second):
+			case <-time.After(45 * time.Second):
 				_ = cmd.Process.Kill()
 				<-done
-				j.ch <- probeResult{j.name, "probe " + j.name + ": the process had to be killed after 25 s", firstLines(se.String(), 10)}
+				j.ch <- probeResult{j.name, "probe " + j.name + ": the process had to be killed after 45 s", firstLines(se.String(), 10)}
 				return
 			}
 			var po probeOut
@@ -536,7 +540,7 @@ func runProbes() []probeResult {
 func runProbe(name string) {
 	log.SetOutput(io.Discard)
 	const clientDeadline = 2 * time.Second
-	const grace = 3 * time.Second
+	const grace = 10 * time.Second
 	var po probeOut
 	var f *fx
 	var do func(ctx context.Context) error
